@@ -143,6 +143,37 @@ type EventMon struct {
 	InCbCmp  atomic.Int64
 	Widen    bool
 	OnEvent  func(ev EvRec)
+	Cells    map[string]int64 // transition x cause, filled when TrackCause is set
+	TrackCause bool
+	lastLeave map[string]string // name -> "left" | "dead"
+}
+
+// causeFromStack names what made memberlist deliver the event.
+func causeFromStack() string {
+	pcs := make([]uintptr, 40)
+	n := runtime.Callers(3, pcs)
+	frames := runtime.CallersFrames(pcs[:n])
+	cause := "other"
+	for {
+		f, more := frames.Next()
+		fn := f.Function
+		switch {
+		case strings.HasSuffix(fn, ".mergeState"):
+			return "push-pull"
+		case strings.HasSuffix(fn, ".handleAlive"), strings.HasSuffix(fn, ".handleDead"), strings.HasSuffix(fn, ".handleSuspect"):
+			return "gossip"
+		case strings.Contains(fn, ".suspectNode.func"):
+			return "own-timer"
+		case strings.HasSuffix(fn, ".Leave"), strings.HasSuffix(fn, ".UpdateNode"), strings.HasSuffix(fn, ".setAlive"):
+			return "local-api"
+		case strings.HasSuffix(fn, ".probeNode"):
+			cause = "own-probe"
+		}
+		if !more {
+			break
+		}
+	}
+	return cause
 }
 
 func (e *EventMon) enter() {
@@ -179,6 +210,37 @@ func (e *EventMon) handle(kind string, n *memberlist.Node) {
 			e.node.sink.add(e.node.Name, "C07/automaton/leave-while-absent", "leave for %s while absent; history %v", n.Name, e.perName[n.Name])
 		}
 		delete(e.present, n.Name)
+	}
+	if e.TrackCause {
+		if e.Cells == nil {
+			e.Cells = map[string]int64{}
+			e.lastLeave = map[string]string{}
+		}
+		trans := kind
+		switch kind {
+		case "join":
+			switch {
+			case len(e.perName[n.Name]) == 0:
+				trans = "join/first"
+			default:
+				trans = "join/after-" + e.lastLeave[n.Name]
+				if prev := e.perName[n.Name]; len(prev) > 0 && (prev[0].Addr != rec.Addr || prev[0].Port != rec.Port) {
+					trans += "/new-address"
+				}
+			}
+		case "leave":
+			how := "dead"
+			if m := e.node.M.Load(); m != nil {
+				for _, r := range m.VerifDumpLocked().Records {
+					if r.Name == n.Name && r.State == memberlist.StateLeft {
+						how = "left"
+					}
+				}
+			}
+			e.lastLeave[n.Name] = how
+			trans = "leave/" + how
+		}
+		e.Cells[trans+"|"+causeFromStack()]++
 	}
 	e.log = append(e.log, rec)
 	e.perName[n.Name] = append(e.perName[n.Name], rec)
@@ -522,7 +584,7 @@ func (c *Cluster) Add(spec NodeSpec) (*SimNode, error) {
 	conf.Transport = n.EP
 	conf.Logger = log.New(n.Log, "", 0)
 	if !spec.NoEvents {
-		n.Ev = &EventMon{node: n, present: map[string]memberInfo{}, perName: map[string][]EvRec{}, Widen: true}
+		n.Ev = &EventMon{node: n, present: map[string]memberInfo{}, perName: map[string][]EvRec{}, Widen: true, TrackCause: true}
 		conf.Events = n.Ev
 	}
 	if !spec.NoDelegate {
@@ -745,6 +807,22 @@ func (c *Cluster) LogTails(k int) map[string][]string {
 			key += "(stopped)"
 		}
 		out[key] = append(out[key], n.Log.Tail(k)...)
+	}
+	return out
+}
+
+// EventCells merges the transition x cause counters of all nodes.
+func (c *Cluster) EventCells() map[string]int64 {
+	out := map[string]int64{}
+	for _, n := range c.Nodes {
+		if n.Ev == nil {
+			continue
+		}
+		n.Ev.mu.Lock()
+		for k, v := range n.Ev.Cells {
+			out[k] += v
+		}
+		n.Ev.mu.Unlock()
 	}
 	return out
 }
